@@ -5,6 +5,7 @@ import (
 	"bytes"
 	"encoding/base64"
 	"encoding/json"
+	"errors"
 	"fmt"
 	"io"
 	"math/rand/v2"
@@ -16,6 +17,7 @@ import (
 	"github.com/pojntfx/stfs/pkg/config"
 	"github.com/pojntfx/stfs/pkg/encryption"
 	"github.com/pojntfx/stfs/pkg/signature"
+	"github.com/spf13/afero"
 )
 
 const (
@@ -158,18 +160,29 @@ func judgeTape(x *SeqCtx, sw *sigWorld, tape []byte, what string) *Violation {
 		if r.Typeflag != int64(tar.TypeReg) && r.Typeflag != 0 {
 			continue
 		}
-		got, err := ReadAll(st.FS, cleanAbs(r.Name))
-		if err != nil {
-			x.Stats.Add("fs_reads_failed_cleanly", 1)
-			continue
-		}
-		x.Stats.Add("fs_reads_succeeded", 1)
 		want, ok := sw.content[paxOf(r)[paxSig]]
 		if !ok {
 			want = sumOf(nil)
 		}
-		if sumOf(got) != want {
-			return &Violation{Prop: c.Prop, Oracle: "read-content-not-signed", Detail: fmt.Sprintf("%s: reading %q through the filesystem reaches EOF without error after %s, signed content is %s", what, r.Name, sumOf(got), want)}
+		// two ways of reading: large buffers to EOF, and the way io.ReadFull + a probe for EOF reads
+		// (one buffer of exactly the reported size, then further reads until the end is signalled;
+		// the verdict on the content signature only arrives with the end of the stream)
+		for _, how := range []string{"large buffers", "one buffer of exactly the reported size, then to EOF"} {
+			var got []byte
+			var err error
+			if how == "large buffers" {
+				got, err = ReadAll(st.FS, cleanAbs(r.Name))
+			} else {
+				got, err = readExact(st.FS, cleanAbs(r.Name))
+			}
+			if err != nil {
+				x.Stats.Add("fs_reads_failed_cleanly", 1)
+				continue
+			}
+			x.Stats.Add("fs_reads_succeeded", 1)
+			if sumOf(got) != want {
+				return &Violation{Prop: c.Prop, Oracle: "read-content-not-signed", Detail: fmt.Sprintf("%s: reading %q through the filesystem (%s) reaches EOF without error after %s, signed content is %s", what, r.Name, how, sumOf(got), want)}
+			}
 		}
 	}
 	return nil
@@ -502,3 +515,43 @@ func alterTape(x *SeqCtx, sw *sigWorld, kind string, arg [3]int64) ([]byte, bool
 }
 
 var _ = io.EOF
+
+// readExact reads a file with one buffer of exactly the size Stat reports and then keeps
+// reading until EOF or an error.
+func readExact(fsys afero.Fs, name string) ([]byte, error) {
+	f, err := fsys.Open(name)
+	if err != nil {
+		return nil, err
+	}
+	defer f.Close()
+	fi, err := f.Stat()
+	if err != nil {
+		return nil, err
+	}
+	var out []byte
+	size := int(fi.Size())
+	if size > 0 {
+		buf := make([]byte, size)
+		n, err := io.ReadFull(f, buf)
+		if n > 0 {
+			out = append(out, buf[:n]...)
+		}
+		if err != nil && err != io.EOF && err != io.ErrUnexpectedEOF {
+			return out, err
+		}
+	}
+	small := make([]byte, 64)
+	for i := 0; i < 1000; i++ {
+		n, err := f.Read(small)
+		if n > 0 && n <= len(small) {
+			out = append(out, small[:n]...)
+		}
+		if err == io.EOF {
+			return out, nil
+		}
+		if err != nil {
+			return out, err
+		}
+	}
+	return out, errors.New("read makes no progress")
+}
